@@ -4,8 +4,189 @@
 pub(crate) mod verif_probe {
     #[allow(unused_imports)]
     use super::*;
-    use serde_json::Value;
-    pub(crate) fn handle(_op: &str, _v: &Value) -> Option<Value> {
-        None
+    use serde_json::{json, Value};
+    use std::io::{Read, Write as IoWrite};
+
+    fn unhex(s: &str) -> Vec<u8> {
+        (0..s.len() / 2).map(|i| u8::from_str_radix(&s[2 * i..2 * i + 2], 16).unwrap()).collect()
+    }
+    fn hex(b: &[u8]) -> String { b.iter().map(|x| format!("{:02x}", x)).collect() }
+
+    fn params_from(v: &Value) -> ServerParameters {
+        let mut sp = ServerParameters::new();
+        if let Some(o) = v.as_object() {
+            for (k, val) in o { sp.parameters.insert(k.clone(), val.as_str().unwrap().to_string()); }
+        }
+        sp
+    }
+
+    fn params_json(sp: &ServerParameters) -> Value {
+        let mut m = serde_json::Map::new();
+        let mut keys: Vec<&String> = sp.parameters.keys().collect();
+        keys.sort();
+        for k in keys { m.insert(k.clone(), json!(sp.parameters[k])); }
+        Value::Object(m)
+    }
+
+    pub(crate) fn run_script(v: &Value) -> Value {
+        let inbound = unhex(v["inbound_hex"].as_str().unwrap_or(""));
+        let listener = std::net::TcpListener::bind("127.0.0.1:0").unwrap();
+        let port = listener.local_addr().unwrap().port();
+        let peer = std::thread::spawn(move || {
+            let (mut s, _) = listener.accept().unwrap();
+            s.write_all(&inbound).unwrap();
+            s.flush().unwrap();
+            let _ = s.shutdown(std::net::Shutdown::Write);
+            let mut got = Vec::new();
+            let _ = s.read_to_end(&mut got);
+            got
+        });
+        let rt = tokio::runtime::Builder::new_current_thread().enable_all().build().unwrap();
+        let result = rt.block_on(async move {
+            let stream = TcpStream::connect(("127.0.0.1", port)).await.unwrap();
+            let pre = &v["pre"];
+            let b = |k: &str| pre.get(k).and_then(|x| x.as_bool()).unwrap_or(false);
+            let csmap: ClientServerMap = Arc::new(Mutex::new(HashMap::new()));
+            let mut cache = None;
+            if let Some(c) = pre.get("ps_cache").filter(|c| !c.is_null()) {
+                let mut l = LruCache::new(std::num::NonZeroUsize::new(c["cap"].as_u64().unwrap() as usize).unwrap());
+                for n in c["names"].as_array().unwrap() { l.push(n.as_str().unwrap().to_string(), ()); }
+                cache = Some(l);
+            }
+            let mut reg = VecDeque::new();
+            if let Some(r) = pre.get("registering").and_then(|x| x.as_array()) { for n in r { reg.push_back(n.as_str().unwrap().to_string()); } }
+            let mut mirror_rx = Vec::new();
+            let mut mirror_manager = None;
+            if let Some(ms) = pre.get("mirrors").and_then(|x| x.as_array()) {
+                let mut byte_senders = vec![];
+                let mut exit_senders = vec![];
+                for m in ms {
+                    let (btx, brx) = tokio::sync::mpsc::channel::<bytes::Bytes>(10);
+                    let (etx, erx) = tokio::sync::mpsc::channel::<()>(1);
+                    let fill = m.get("prefilled").and_then(|x| x.as_u64()).unwrap_or(0);
+                    for _ in 0..fill { let _ = btx.try_send(bytes::Bytes::from_static(b"fill")); }
+                    let closed = m.get("closed").and_then(|x| x.as_bool()).unwrap_or(false);
+                    if closed { drop(brx); mirror_rx.push(None); } else { mirror_rx.push(Some(brx)); }
+                    byte_senders.push(btx);
+                    exit_senders.push(etx);
+                    std::mem::forget(erx);
+                }
+                mirror_manager = Some(crate::mirrors::MirroringManager { byte_senders, disconnect_senders: exit_senders });
+            }
+            let mut server = Server {
+                address: Address::default(),
+                stream: BufStream::new(StreamInner::Plain { stream }),
+                buffer: BytesMut::from(&unhex(pre.get("buffer_hex").and_then(|x| x.as_str()).unwrap_or(""))[..]),
+                server_parameters: params_from(&pre["server_params"]),
+                process_id: pre.get("process_id").and_then(|x| x.as_i64()).unwrap_or(1111) as i32,
+                secret_key: pre.get("secret_key").and_then(|x| x.as_i64()).unwrap_or(2222) as i32,
+                in_transaction: b("in_transaction"),
+                data_available: b("data_available"),
+                in_copy_mode: b("in_copy_mode"),
+                bad: b("bad"),
+                cleanup_state: CleanupState { needs_cleanup_set: b("needs_cleanup_set"), needs_cleanup_prepare: b("needs_cleanup_prepare") },
+                client_server_map: csmap.clone(),
+                connected_at: chrono::offset::Utc::now().naive_utc(),
+                stats: Arc::new(ServerStats::default()),
+                application_name: "app".to_string(),
+                last_activity: SystemTime::now(),
+                mirror_manager,
+                addr_set: None,
+                cleanup_connections: pre.get("cleanup_connections").and_then(|x| x.as_bool()).unwrap_or(true),
+                log_client_parameter_status_changes: false,
+                prepared_statement_cache: cache,
+                registering_prepared_statement: reg,
+            };
+            if let Some(entries) = pre.get("client_map").and_then(|x| x.as_array()) {
+                let mut g = csmap.lock();
+                for e in entries {
+                    g.insert((e[0].as_i64().unwrap() as i32, e[1].as_i64().unwrap() as i32),
+                             (e[2].as_i64().unwrap() as i32, e[3].as_i64().unwrap() as i32, e[4].as_str().unwrap().to_string(), e[5].as_u64().unwrap() as u16));
+                }
+            }
+            let mut client_params = params_from(&v["client_params"]);
+            let mut out = vec![];
+            for step in v["steps"].as_array().unwrap() {
+                let what = step["do"].as_str().unwrap();
+                let r = match what {
+                    "recv" => {
+                        let use_client = step.get("with_client_params").and_then(|x| x.as_bool()).unwrap_or(false);
+                        let r = if use_client { server.recv(Some(&mut client_params)).await } else { server.recv(None).await };
+                        match r { Ok(bytes) => json!({"ok": hex(&bytes)}), Err(e) => json!({"err": format!("{:?}", e)}) }
+                    }
+                    "recv_loop" => {
+                        let mut all = vec![];
+                        let mut res = json!(null);
+                        let mut n = 0;
+                        loop {
+                            match server.recv(None).await {
+                                Ok(bytes) => { all.extend_from_slice(&bytes); }
+                                Err(e) => { res = json!(format!("{:?}", e)); break; }
+                            }
+                            n += 1;
+                            if !server.is_data_available() || n > 64 { break; }
+                        }
+                        json!({"relayed": hex(&all), "err": res, "calls": n})
+                    }
+                    "send" => match server.send(&BytesMut::from(&unhex(step["hex"].as_str().unwrap())[..])).await {
+                        Ok(()) => json!({"ok": true}), Err(e) => json!({"err": format!("{:?}", e)}) },
+                    "query" => match server.query(step["sql"].as_str().unwrap()).await {
+                        Ok(()) => json!({"ok": true}), Err(e) => json!({"err": format!("{:?}", e)}) },
+                    "checkin_cleanup" => match server.checkin_cleanup().await {
+                        Ok(()) => json!({"ok": true}), Err(e) => json!({"err": format!("{:?}", e)}) },
+                    "sync_parameters" => match server.sync_parameters(&params_from(&step["params"])).await {
+                        Ok(()) => json!({"ok": true}), Err(e) => json!({"err": format!("{:?}", e)}) },
+                    "register_ps" => {
+                        let parse = Parse::try_from(&BytesMut::from(&unhex(step["parse_hex"].as_str().unwrap())[..])).unwrap();
+                        match server.register_prepared_statement(&parse, step["send"].as_bool().unwrap_or(true)).await {
+                            Ok(()) => json!({"ok": true}), Err(e) => json!({"err": format!("{:?}", e)}) }
+                    }
+                    "has_ps" => json!({"has": server.has_prepared_statement(step["name"].as_str().unwrap())}),
+                    "claim" => { server.claim(step["pid"].as_i64().unwrap() as i32, step["key"].as_i64().unwrap() as i32); json!({"ok": true}) }
+                    "mark_dirty" => { server.mark_dirty(); json!({"ok": true}) }
+                    "is_bad" => json!({"bad": server.bad}),
+                    _ => json!({"error": "unknown step"}),
+                };
+                out.push(r);
+            }
+            let mut mirrors_got = vec![];
+            for rx in mirror_rx.iter_mut() {
+                let mut msgs = vec![];
+                if let Some(rx) = rx { while let Ok(m) = rx.try_recv() { msgs.push(hex(&m)); } }
+                mirrors_got.push(msgs);
+            }
+            let cache_names: Value = match &server.prepared_statement_cache {
+                Some(c) => json!(c.iter().map(|(k, _)| k.clone()).collect::<Vec<String>>()),   // most-recent first
+                None => Value::Null,
+            };
+            let mut cmap: Vec<Value> = csmap.lock().iter().map(|(k, val)| json!([k.0, k.1, val.0, val.1, val.2, val.3])).collect();
+            cmap.sort_by_key(|x| x.to_string());
+            let fin = json!({
+                "in_transaction": server.in_transaction, "data_available": server.data_available, "in_copy_mode": server.in_copy_mode,
+                "bad": server.bad, "needs_cleanup_set": server.cleanup_state.needs_cleanup_set,
+                "needs_cleanup_prepare": server.cleanup_state.needs_cleanup_prepare, "buffer_hex": hex(&server.buffer),
+                "ps_cache": cache_names, "registering": server.registering_prepared_statement.iter().cloned().collect::<Vec<String>>(),
+                "server_params": params_json(&server.server_parameters), "client_params": params_json(&client_params),
+                "client_map": cmap, "mirrors": mirrors_got,
+            });
+            // suppress the Terminate that Drop writes: forget the server but close the socket
+            server.bad = true;
+            drop(server);
+            json!({"steps": out, "final": fin})
+        });
+        let written = peer.join().unwrap();
+        let mut res = result;
+        // Drop for Server appends a Terminate ('X', len 4): strip it
+        let mut w = written;
+        if w.len() >= 5 && &w[w.len() - 5..] == b"X\x00\x00\x00\x04" { w.truncate(w.len() - 5); }
+        res["written_hex"] = json!(hex(&w));
+        res
+    }
+
+    pub(crate) fn handle(op: &str, v: &Value) -> Option<Value> {
+        match op {
+            "server_script" => Some(run_script(v)),
+            _ => None,
+        }
     }
 }
